@@ -74,7 +74,7 @@ func (b *Builder) Str(t types.Type) string {
 		return "[" + strconv.Itoa(int(t.Len())) + "]" + b.realStr(t.Elem())
 	case *types.Chan:
 		_, s := ChanDir(t.Dir())
-		return s + " " + b.realStr(t.Elem())
+		return s + " " + chanElemStr(t, b.realStr(t.Elem()))
 	case *types.Named:
 		name := b.namedStr(t)
 		if pkg := t.Obj().Pkg(); pkg != nil {
@@ -139,9 +139,20 @@ func (b *Builder) reflectTypeArgBaseString(t types.Type) string {
 		return "map[" + b.reflectTypeArgBaseString(t.Key()) + "]" + b.reflectTypeArgString(t.Elem())
 	case *types.Chan:
 		_, s := ChanDir(t.Dir())
-		return s + " " + b.reflectTypeArgString(t.Elem())
+		return s + " " + chanElemStr(t, b.reflectTypeArgString(t.Elem()))
 	}
 	return types.TypeString(t, reflectTypeArgPkgPath)
+}
+
+// chanElemStr parenthesizes the element of a bidirectional channel of
+// receive-only channels: chan (<-chan int), not "chan <-chan int".
+func chanElemStr(t *types.Chan, elem string) string {
+	if t.Dir() == types.SendRecv {
+		if ch, ok := types.Unalias(t.Elem()).(*types.Chan); ok && ch.Dir() == types.RecvOnly {
+			return "(" + elem + ")"
+		}
+	}
+	return elem
 }
 
 func reflectTypeArgPkgPath(pkg *types.Package) string {
